@@ -342,6 +342,12 @@ impl<D: DependencyProvider, RT: AsyncRuntime> Solver<D, RT> {
                 .assigned_value(additional_var)
                 .is_none()
             {
+                // A soft requirement names a solvable directly, so it may never have
+                // been revealed as a candidate of a requirement. Make sure it is
+                // mutually exclusive with the other solvables of its package.
+                Encoder::new(&mut self.state, &self.cache, &root_dependencies)
+                    .add_forbid_multiple_clauses(additional, additional_var);
+
                 self.run_sat(additional.into(), &root_dependencies)?;
             }
         }
